@@ -1513,9 +1513,9 @@ DEEP_TEMPLATES = {
     "net.IPAddress": ["net.IPAddress(r.s) == net.ipaddress('10.1.2.3')"],
     "net.IPNetwork": ["net.IPNetwork('10.0.0.0/8') != net.ipnetwork('11.0.0.0/8')", "net.IPAddress(r.s) in net.IPNetwork('10.0.0.0/8')"],
 }
-# whitelisted ROOT constructors that need a fresh look as well (the name `path` collides with an attribute of
-# DynamicFieldtypeModule: known finding)
-ROOT_TEMPLATES = ["path('/tmp/x') == path('/tmp/x')", "uri('http://a/b/c.txt').filename == 'c.txt'", "string(r.n) == '80'",
+# whitelisted ROOT constructors that need a fresh look as well (the name `path` used to collide with an attribute of
+# DynamicFieldtypeModule)
+ROOT_TEMPLATES = ["path('/tmp/x') == path('/tmp/x')", "path('/tmp/x').name == 'x'", "uri('http://a/b/c.txt').filename == 'c.txt'", "string(r.n) == '80'",
                   "uint16(r.n) == 80"]
 DEEP_SCRIPT = r"""
 import sys, json, datetime
@@ -1567,11 +1567,6 @@ def deep_paths_check(ctx):
         for engine, o in (("compiled", oc), ("interpreted", oi)):
             ctx.count_case(("deep", e, engine), nontrivial=True)
             n += 1
-            if og[0] == "val" and o[:2] != og[:2] and e.startswith("path("):
-                f = find_known(kf, shape="fieldtype-constructor-path")
-                if f is not None:
-                    ctx.known_finding(f["id"], f["what"])
-                    continue
             if og[0] == "val" and o[:2] != og[:2] and not ctx.violations:
                 ctx.violation(
                     "in a fresh process the %s engine gives %s for %s on %s, Python evaluation with the field types imported gives %r" % (
